@@ -1,13 +1,30 @@
 #!/usr/bin/env bash
-# usage: tools/seed_try.sh <patch.diff> <ID> [<ID>...]   apply the patch to /repo, run the quick checks, undo.
+# usage: tools/seed_try.sh <patch.diff> <ID> [<ID>...]
+# Applies the patch to a scratch CLONE of /repo (under /var/tmp, removed afterwards) and runs the
+# quick checks of a copy of /verif against it, so that /repo itself is never touched and other
+# runs that build from /repo at the same time are not disturbed. INPLACE=1 applies the patch to
+# /repo itself instead (git -C /repo apply; checks; git -C /repo checkout -- .).
 set -u
 P=$(readlink -f "$1"); shift
-cd /repo; git diff --quiet || { echo "repo dirty"; exit 3; }
-git apply "$P" || { echo "patch does not apply to /repo"; exit 3; }
-cd /verif
+V=$(cd "$(dirname "$(readlink -f "$0")")/.." && pwd)
+if [ "${INPLACE:-0}" = 1 ]; then
+  cd /repo; git diff --quiet || { echo "repo dirty"; exit 3; }
+  git apply "$P" || { echo "patch does not apply to /repo"; exit 3; }
+  W=""; cd "$V"
+else
+  W=/var/tmp/seedtry.$$; mkdir -p $W
+  git clone -q /repo $W/repo
+  ( cd $W/repo && git apply "$P" ) || { echo "patch does not apply to /repo HEAD"; rm -rf $W; exit 3; }
+  cp -r "$V" $W/verif; rm -rf $W/verif/.git $W/verif/work $W/verif/bin $W/verif/replay
+  sed -i "s|=> /repo|=> $W/repo|" $W/verif/go.mod
+  cd $W/verif
+fi
 for id in "$@"; do
-  out=$(./check "$id" quick 2>&1 | grep -v '^KNOWN' | tail -3)
-  if echo "$out" | grep -q '^VIOLATION'; then echo "$id: CAUGHT  $(echo "$out" | grep -m1 VIOLATION)"; else echo "$id: missed  ($(echo "$out" | tail -1 | cut -c1-120))"; fi
+  out=$(VERIF_SEED=${VERIF_SEED:-1} ./check "$id" quick 2>&1 | grep -v '^KNOWN' | tail -3)
+  if echo "$out" | grep -q '^VIOLATION'; then
+    echo "$id: CAUGHT  $(echo "$out" | grep -m1 VIOLATION)"
+    rp=$(echo "$out" | grep -m1 VIOLATION | sed 's/.*replay=//')
+    [ -f "$rp" ] && python3 -c "import json,sys;d=json.load(open('$rp'));print('   ',str(d.get('error',d.get('err','')))[:400])" 2>/dev/null
+  else echo "$id: missed  ($(echo "$out" | tail -1 | cut -c1-120))"; fi
 done
-git -C /repo checkout -- . ; git -C /repo clean -fdq
-git -C /repo status --short
+if [ -z "$W" ]; then git -C /repo checkout -- . ; git -C /repo clean -fdq; git -C /repo status --short; else rm -rf $W; fi
